@@ -39,3 +39,13 @@ kani_unit("fri_verifier", "winter-fri", "fri/src/verifier/mod.rs", "kani/fri_ver
 for u in UNITS:
     if u["unit"] == "fri_verifier":
         u["trusted"] = [DBL]
+
+kani_unit("air_divisor", "winter-air", "air/src/air/divisor.rs", "kani/air_divisor.rs", "air::divisor", [
+    H("air_divisor_transition_bounded", ["C16"], ["ConstraintDivisor::from_transition", "ConstraintDivisor::degree"],
+      "numerator x^n - 1; exemptions are exactly the domain points of steps n-k..n-1, in order; degree n - k",
+      bounded="n in {8,16,32,64}, k <= min(n/2+1, 6); get_trace_domain_value_at abstracted by an injective encoding of (n, step)"),
+    H("air_divisor_assertion_bounded", ["C16"], ["ConstraintDivisor::from_assertion", "Assertion::get_num_steps"],
+      "single / periodic assertions: numerator x^(num_steps) - 1 if first_step == 0 else x^(num_steps) - g^(num_steps * first_step); no exemptions",
+      bounded="n = 2^3..2^8; get_trace_domain_value_at abstracted by an injective encoding of (n, step)"),
+    H("air_divisor_canary_must_fail", ["C16"], [], "false claim: first exemption of (8, 2) is step 7", canary=True),
+])
